@@ -215,7 +215,8 @@ def _run_case(case):
         return v.result(decided=True, nontrivial=len(flat) >= 3 and len(combos) > 0, sample=sample)
 
     if case["cls"] == "above-ice":
-        z_bad = float(10 ** rng.uniform(-6, 1.5))
+        # any height above the surface counts: tens of metres down to sub-atomic heights and the smallest positive double
+        z_bad = [float(10 ** rng.uniform(-6, 1.5)), float(10 ** rng.uniform(-15, -6)), float(10 ** rng.uniform(-300, -15)), 5e-324][int(rng.integers(0, 4))]
         where = str(rng.choice(["leaf", "nested", "combine-antenna", "combine-list", "iadd"]))
         raised = False
         try:
